@@ -141,12 +141,19 @@ static int load(const char* file, const std::string& dir)
         std::vector<double> vals;
         if (!missing) {
             std::ofstream o(fr);
+            size_t k = 0;
             for (const auto& tok : t["file"].arr()) {
-                if (tok.num() < 0)
-                    o << "abc\n";
+                const char* s = t["sep"][k++].boolean() ? " " : "\n";
+                int v         = tok.num();
+                if (v == -1)
+                    o << "abc" << s;
+                else if (v == -2)
+                    o << "inf" << s;
+                else if (v >= 11)
+                    o << 0.1 * (v - 10) << (k % 2 ? "cm" : ";") << s; // a number with garbage glued to it
                 else {
-                    o << 0.1 * tok.num() << "\n";
-                    vals.push_back(0.1 * tok.num());
+                    o << 0.1 * v << s;
+                    vals.push_back(0.1 * v);
                 }
             }
         }
